@@ -43,6 +43,16 @@ CFG = {
     # a streaming call whose reply channel is filled by other nodes of its configuration while it is still
     # handing its request to this node (EnqueueBlocksOnOwnReplyChannel), with Close
     "stream-foreign": ("{1, 2}", "stream", "two", "two", 0, 1, "TRUE", "{1}", 2, ALL, 1, "TRUE"),
+    # thorough tier (after the model grew: one cancellable request each)
+    "t-two-two-b0": ("{1, 2}", "two", "two", "two", 0, 1, "TRUE", "{1}", 3, ALL, 1),
+    "t-two-two-b1": ("{1, 2}", "two", "two", "two", 1, 1, "TRUE", "{1}", 2, ALL, 1),
+    "t-stream-two": ("{1, 2}", "stream", "two", "two", 0, 1, "TRUE", "{1}", 2, ALL, 1),
+    "t-stream-stream-b1": ("{1, 2}", "stream", "stream", "two", 1, 1, "FALSE", "{1}", 2, ALL, 0),
+    "t-three-b0": ("{1, 2, 3}", "two", "two", "sw", 0, 1, "FALSE", "{1}", 2, ALL, 0),
+    "t-three-b1-close": ("{1, 2, 3}", "two", "nsw", "two", 1, 1, "TRUE", "{}", 2, ALL, 0),
+    "t-stream-foreign": ("{1, 2}", "stream", "two", "two", 0, 1, "TRUE", "{1}", 2, ALL, 0, "TRUE"),
+    "t-two-two-abandon": ("{1, 2}", "two", "two", "two", 0, 1, "FALSE", "{1}", 2, ALL, 1, "FALSE", "TRUE"),
+    "t-two-two-w0": ("{1, 2}", "two", "two", "two", 0, 0, "TRUE", "{1}", 2, W0, 0),
     # quick tier: one cancellable request, either crash or Close
     "q-two-two-crash": ("{1, 2}", "two", "two", "two", 0, 1, "FALSE", "{1}", 3, ALL, 1),
     "q-two-two-close": ("{1, 2}", "two", "two", "two", 0, 1, "TRUE", "{1}", 2, ALL, 0),
@@ -58,11 +68,11 @@ DESIGN = {
     "quick": {"C08": ["q-two-sw-w0", "q-two-two-crash", "q-sw-nsw-b1"],
               "C09": ["q-two-two-crash", "q-stream-two", "three-two-nocrash", "stream-foreign-q"],
               "C10": ["q-two-two-crash", "q-sw-nsw-b1"], "C12": ["q-two-two-close", "q-sw-nsw-b1"]},
-    "thorough": {"C08": ["two-sw-w0", "two-two-w0", "nsw-two-w0", "two-two-b1", "three-b0"],
-                 "C09": ["two-two-b0", "stream-two-b0", "stream-stream-b1", "three-b0", "three-two-nocrash", "stream-foreign",
-                         "two-two-abandon"],
-                 "C10": ["two-two-b0", "two-two-b1", "three-b0"],
-                 "C12": ["two-two-b0", "two-two-b1", "stream-two-b0", "sw-nsw-b1", "three-b1-close"]},
+    "thorough": {"C08": ["two-sw-w0", "two-two-w0", "nsw-two-w0", "t-two-two-b1", "t-three-b0"],
+                 "C09": ["t-two-two-b0", "t-stream-two", "t-stream-stream-b1", "t-three-b0", "three-two-nocrash",
+                         "t-stream-foreign", "t-two-two-abandon"],
+                 "C10": ["t-two-two-b0", "t-two-two-b1", "t-three-b0"],
+                 "C12": ["t-two-two-b0", "t-two-two-b1", "t-stream-two", "sw-nsw-b1", "t-three-b1-close"]},
 }
 OWN = {"C08": "CtxPrompt", "C09": "NoPermanentStrand NoStrandedCall NoLockWedge", "C10": "NoStrandedCall NoPanic", "C12": "CloseTerminates"}
 # free workloads: (runs, goroutines, calls per goroutine)
